@@ -52,8 +52,8 @@ def _get_features_info(features: list[Feature]) -> dict[str, Any]:
             feature_type = "XOR"
         elif feature.is_or_group():
             feature_type = "OR"
-        elif feature.is_cardinality_group():
-            feature_type = "GENOR"
+        elif feature.is_cardinality_group() or feature.is_mutex_group():
+            feature_type = "GENOR"  # mutex groups are [0..1] groups
 
         features_info[feature.name] = {
             "name": feature.name,
@@ -63,7 +63,7 @@ def _get_features_info(features: list[Feature]) -> dict[str, Any]:
         }
 
         if feature_type == "GENOR":
-            relation = next(r for r in feature.get_relations() if r.is_cardinal())
+            relation = next(r for r in feature.get_relations() if r.is_cardinal() or r.is_mutex())
             features_info[feature.name]["min"] = relation.card_min
             features_info[feature.name]["max"] = relation.card_max
     return features_info
